@@ -76,6 +76,7 @@ func (u *controlUnit) cycle(cycle int, ctx *risc.Context) {
 	}
 
 	for remaining > 0 && !u.pendings.IsFull() {
+		ctx.VerifTick(6, cycle)
 		runner, exists := u.inBus.Get()
 		if !exists {
 			return
